@@ -115,6 +115,24 @@ static void tolerance_run(const Problem& p, const Mode& m, double scale, double 
   if (!(e <= tol)) violation("Evolve:requested-tolerance-not-honoured", "{\"case\":" + ctx + ",\"err\":" + jnum(e) + ",\"accepted\":" + jnum(tol) + "}");
 }
 
+// Fixed stepping keeps GSL's error control: a step whose error estimate exceeds the requested tolerance is rejected and the
+// failure must surface. Either Evolve reports it (exception) or, if it returns normally, the clock is at t+dt and the state is
+// the solution -- a normal return with a partially evolved state is the violation.
+static void coarse_fixed_run(const Problem& p, const Mode& m, int nsteps, double tolreq) {
+  Probe s(p, 0.0);
+  s.Set_GSL_step(m.type); s.Set_AdaptiveStep(false); s.Set_NumSteps(nsteps); s.Set_rel_error(tolreq); s.Set_abs_error(tolreq);
+  std::vector<double> y0 = probe_state(p, 2);
+  s.set_flat(y0);
+  count("evaluations"); { uint64_t h = ref::fnv(m.name, strlen(m.name), p.d * 100 + nsteps); h = ref::fnv(p.sw, sizeof p.sw, h); h = ref::fnv(&tolreq, 8, h); distinct(h); }
+  std::string ctx = "{\"layer\":\"coarse-fixed\",\"problem\":" + pjson(p) + ",\"stepper\":" + jstr(m.name) + ",\"steps\":" + std::to_string(nsteps) + ",\"tolerance\":" + jnum(tolreq) + "}";
+  double tau = 2.0;
+  try { s.Evolve(tau); } catch (const std::exception&) { count("coarse_fixed_step_runs_refused"); return; }
+  count("coarse_fixed_step_runs_completed");
+  std::vector<double> got = s.get_flat(), want = p.exact(y0, 0.0, tau);
+  double scale = std::max(maxabs(y0), maxabs(want)), e = maxdiff(got, want), tol = std::max(1e-3, 2.0 * nsteps * tolreq) * (1 + scale);   // a completed run passed the error control at every step: local errors of at most tolreq*(1+|y|) each
+  if (!(std::fabs(s.Get_t() - tau) <= 64 * nsteps * ref::EPS * tau) || !(e <= tol)) violation(std::string("Evolve:fixed-step-failure-not-reported:") + m.name, "{\"case\":" + ctx + ",\"t\":" + jnum(s.Get_t()) + ",\"err\":" + jnum(e) + "}");
+}
+
 int main(int argc, char** argv) {
   Args ar = parse(argc, argv); quiet_gsl();
   bool th = ar.thorough();
@@ -162,6 +180,13 @@ int main(int argc, char** argv) {
     Problem p; p.nx = 2; p.d = d; p.nrho = 1; p.nsc = 1; bool sw[5] = {true, true, false, true, false}; for (int b = 0; b < 5; b++) p.sw[b] = sw[b]; p.family = 0; p.kappa = 0.3; p.kappa2 = 0.2;
     tolerance_run(p, m, 1e-10, 1e-9, 1e-200, 1e-5);   // relative control only: a state of size 1e-10 must still be right to ~1e-9 relative
     tolerance_run(p, m, 1e8, 1e-200, 1e-6, 1e-11);    // absolute control only: a state of size 1e8 must be right to ~1e-6 absolute (1e-3 accepted)
+  }
+  // fixed stepping that is too coarse for the requested tolerance (and some that is not): every fixed mode
+  for (auto& m : modes) for (int d : {2, 3}) for (int sw : {8, 1, 31, 9}) for (int nsteps : {3, 10, 60}) for (double tolreq : {1e-9, 1e-5, 1e-2}) {
+    if (m.adaptive) continue;
+    if ((caseno++ % ar.nshards) != ar.shard) continue;
+    Problem p; p.nx = 2; p.d = d; p.nrho = 1; p.nsc = 1; for (int b = 0; b < 5; b++) p.sw[b] = (sw >> b) & 1; p.family = 0; p.kappa = 0.9; p.kappa2 = p.sw[4] ? 0.0 : 0.8;
+    coarse_fixed_run(p, m, nsteps, tolreq);
   }
   // family 1: non-commuting, time independent, no source: rho(t) = e^{K tau} rho0 e^{K^dagger tau}
   for (auto& m : modes) for (int nx = 1; nx <= 2; nx++) for (int d = 2; d <= 6; d++) for (int nrho = 1; nrho <= 2; nrho++) for (int sw = 1; sw <= 3; sw++) {
